@@ -44,6 +44,7 @@ def check_C16(report, tier, seed):
                    "{/,+,#,$share,a,b,''}, zero aliases, bound ids; settings drawn around each packet's encoded size; distinct by (settings, packet)")
     gv.theorem_obligations(report, "GV/Props/C16.lean", "GV.Props.C16", audit=True)
     S.suite_validate(report, tier, seed, "C16")
+    S.suite_connect_limits(report, tier, seed, "C16")
     import suites_engine as E
     walks = E.run_walks(seed, tier, "engine-c16", 120, 4000, profile=lambda i: "mpstight" if i % 2 == 0 else "default")
     corr_ok = E.correspondence(report, walks, "C16")
